@@ -2,9 +2,12 @@
    Text level: the repository's own pipeline (escape_assertion, remove_comments, the three rewrites of
    _get_expression (repaired: " and " / " or " / " not "), SimpleEval's strip) maps EVERY admissible
    spacing of a well-formed Casbin token list to the corresponding Python token list.
+   Parser level (ParseProofs.v): the Python-side parser of the model reads those tokens back as the
+   translated AST of the expression (fuel always sufficient), so every admissible layout of a
+   grammatical expression parses to the same AST and evaluates as that AST.
    Only statements here; proofs are `exact <lemma>`. *)
 From Coq Require Import List NArith Bool.
-From PyCasbin Require Import Base Effect Expr MatcherText MatcherTextProofs.
+From PyCasbin Require Import Base Effect Expr MatcherText MatcherTextProofs ParseProofs.
 Import ListNotations.
 Local Open Scope N_scope.
 
@@ -124,3 +127,99 @@ Example C02_example_tokens :
   = Some [TId [114; 95; 115; 117; 98]; TCmp CEq; TId [112; 95; 115; 117; 98]; TKAnd; TKNot; TLP; TId [114; 95; 111; 98; 106]; TCmp CNe; TId [112; 95; 111; 98; 106]; TRP; TKOr;
           TId [114; 95; 97; 99; 116]; TIn; TLP; TStr true [114; 101; 97; 100]; TComma; TStr false [119]; TRP].
 Proof. vm_compute. reflexivity. Qed.
+
+(* ====================================================================== the Python-side parser (ParseProofs.v)
+   tr_expr = the AST-level image of tr (r.f.a -> r_f.a, p.f -> p_f, eval(p.f) -> the call eval(p_f));
+   rassoc nests || / && chains to the right, as the parser does (Python's BoolOp is flat). *)
+
+(* every grammatical expression, no size bound: parse_tokens never runs out of fuel and returns the
+   translated AST of the re-associated expression *)
+Theorem C02_parse_roundtrip : forall e, grammatical e = true ->
+  parse_tokens (flat_map tr (tokens_of e)) = Ok (tr_expr (rassoc e)).
+Proof. exact parse_roundtrip. Qed.
+Print Assumptions C02_parse_roundtrip.
+
+(* the fuel 8 * S (length ts) of parse_tokens suffices and all tokens are consumed *)
+Theorem C02_parse_fuel_suffices : forall e, grammatical e = true ->
+  p_or (8 * S (length (flat_map tr (tokens_of e)))) (flat_map tr (tokens_of e))
+  = Ok (tr_expr (rassoc e), []).
+Proof. exact parse_fuel_suffices. Qed.
+Print Assumptions C02_parse_fuel_suffices.
+
+(* re-association changes neither the tokens nor the value (any environment, any function table) *)
+Theorem C02_rassoc_same_tokens : forall e, tokens_of (rassoc e) = tokens_of e.
+Proof. exact tokens_rassoc. Qed.
+Print Assumptions C02_rassoc_same_tokens.
+
+Theorem C02_rassoc_same_value : forall lreq lpol lname levl fns e,
+  eval_expr lreq lpol lname levl fns (tr_expr (rassoc e))
+  = eval_expr lreq lpol lname levl fns (tr_expr e).
+Proof. exact eval_rassoc. Qed.
+Print Assumptions C02_rassoc_same_value.
+
+(* the literal round trip  parse (tr (tokens_of e)) = tr_expr e  holds when no || (&&) node is the
+   LEFT operand of a || (&&) node ... *)
+Theorem C02_parse_roundtrip_partial : forall e, grammatical e = true -> right_nested e = true ->
+  parse_tokens (flat_map tr (tokens_of e)) = Ok (tr_expr e).
+Proof. exact parse_roundtrip_partial. Qed.
+Print Assumptions C02_parse_roundtrip_partial.
+
+(* ... and not without that guard: (f() || f()) || f() is unparsed without parentheses *)
+Theorem C02_parse_roundtrip_refuted : exists e,
+  grammatical e = true /\ names_ok [] [] e = true
+  /\ parse_tokens (flat_map tr (tokens_of e)) <> Ok (tr_expr e).
+Proof. exact parse_roundtrip_refuted. Qed.
+Print Assumptions C02_parse_roundtrip_refuted.
+
+(* the parser's own language (list items / call arguments any expression, Python-side names) *)
+Theorem C02_parser_language : forall e, ok 0 e = true ->
+  parse_tokens (flat_map tr (tokens_of e)) = Ok (tr_expr e).
+Proof. exact parse_ok. Qed.
+Print Assumptions C02_parser_language.
+
+(* text -> pipeline -> py_lex -> parse_tokens, for every admissible layout *)
+Theorem C02_pipeline_parse : forall rs ps e ws,
+  forallb is_digit rs = true -> forallb is_digit ps = true ->
+  names_ok rs ps e = true -> has_eval_expr e = false -> grammatical e = true ->
+  admissible (tokens_of e) ws = true ->
+  parse_text (pipeline (render (tokens_of e) ws)) = Ok (tr_expr (rassoc e)).
+Proof. exact pipeline_parse. Qed.
+Print Assumptions C02_pipeline_parse.
+
+(* two admissible layouts of the same expression parse to the same AST *)
+Theorem C02_layout_independent_parse : forall rs ps e ws1 ws2,
+  forallb is_digit rs = true -> forallb is_digit ps = true ->
+  names_ok rs ps e = true -> has_eval_expr e = false -> grammatical e = true ->
+  admissible (tokens_of e) ws1 = true -> admissible (tokens_of e) ws2 = true ->
+  parse_text (pipeline (render (tokens_of e) ws1)) = parse_text (pipeline (render (tokens_of e) ws2)).
+Proof. exact layout_independent_parse. Qed.
+Print Assumptions C02_layout_independent_parse.
+
+(* the model's decision path evaluates every admissible layout exactly as the translated AST *)
+Theorem C02_layout_independent_evaluation : forall rs ps e ws fns params,
+  forallb is_digit rs = true -> forallb is_digit ps = true ->
+  names_ok rs ps e = true -> has_eval_expr e = false -> grammatical e = true ->
+  admissible (tokens_of e) ws = true ->
+  rbind (parse_text (pipeline (render (tokens_of e) ws))) (eval_py fns params)
+  = eval_py fns params (tr_expr e).
+Proof. exact layout_independent_evaluation. Qed.
+Print Assumptions C02_layout_independent_evaluation.
+
+(* non-vacuity: the AST of  r.sub==p.sub&&!(r.obj!=p.obj)||r.act in("read",'w')  has the tokens ex_ts,
+   satisfies every hypothesis, and the text of C02_example_hypotheses parses to its translated AST *)
+Definition ex_e : expr :=
+  EOr (EAnd (ECmp CEq (EReq [] [115; 117; 98] []) (EPol [] [115; 117; 98]))
+            (ENot (EPar (ECmp CNe (EReq [] [111; 98; 106] []) (EPol [] [111; 98; 106])))))
+      (EIn (EReq [] [97; 99; 116] []) [EStr true [114; 101; 97; 100]; EStr false [119]] false).
+Example C02_example_parse :
+  tokens_of ex_e = ex_ts /\ grammatical ex_e = true /\ right_nested ex_e = true
+  /\ names_ok [] [] ex_e = true /\ has_eval_expr ex_e = false /\ admissible (tokens_of ex_e) ex_ws = true
+  /\ parse_text (pipeline (render ex_ts ex_ws))
+     = Ok (EOr (EAnd (ECmp CEq (EVar [114; 95; 115; 117; 98] []) (EVar [112; 95; 115; 117; 98] []))
+                     (ENot (EPar (ECmp CNe (EVar [114; 95; 111; 98; 106] []) (EVar [112; 95; 111; 98; 106] [])))))
+               (EIn (EVar [114; 95; 97; 99; 116] []) [EStr true [114; 101; 97; 100]; EStr false [119]] false))
+  /\ tr_expr ex_e
+     = EOr (EAnd (ECmp CEq (EVar [114; 95; 115; 117; 98] []) (EVar [112; 95; 115; 117; 98] []))
+                 (ENot (EPar (ECmp CNe (EVar [114; 95; 111; 98; 106] []) (EVar [112; 95; 111; 98; 106] [])))))
+           (EIn (EVar [114; 95; 97; 99; 116] []) [EStr true [114; 101; 97; 100]; EStr false [119]] false).
+Proof. vm_compute. repeat split; reflexivity. Qed.
